@@ -50,7 +50,14 @@ func lossyRun(w *World, stalled bool) {
 		if !stalled {
 			sc.Backpressure = t.Flag(1, 3)
 		}
+		if coll && t.Flag(1, 4) {
+			// an include predicate: the subscriber's view is then the filtered collection's, through the same lossy stages
+			sc.Include = &inclTable{arith: true}
+		}
 		s := &subscriber{name: fmt.Sprintf("s%d", i), cfg: sc, ctx: ctx, cancel: cancel}
+		if !stalled && t.Flag(1, 4) {
+			s.lag = []time.Duration{200 * time.Millisecond, time.Second}[t.Choose(2)] // comes for its first event when the writers are done or blocked
+		}
 		s.open(r) // opened at a quiescent point, before any writer exists
 		subs = append(subs, s)
 	}
@@ -68,6 +75,9 @@ func lossyRun(w *World, stalled bool) {
 	}
 	consumer := func(s *subscriber) {
 		w.Go(s.name, true, func(t *Task) {
+			if s.lag > 0 {
+				t.Sleep(s.lag)
+			}
 			for {
 				t.Yield("recv")
 				if !stalled && t.W.Tape.Flag(1, 6) {
@@ -218,10 +228,13 @@ func lossyCheck(w *World, r *realRes, m0 *model, coll bool, s *subscriber) {
 		}
 		return
 	}
+	keep := func(id string, v mm) bool { return s.cfg.Include == nil || s.cfg.Include.eval(id, false, v.V) }
 	view := map[string]mm{}
 	if s.cfg.UpdatesOnly {
 		for id, v := range m0.items {
-			view[id] = v
+			if keep(id, v) {
+				view[id] = v
+			}
 		}
 	}
 	for i, e := range s.events {
@@ -265,7 +278,7 @@ func lossyCheck(w *World, r *realRes, m0 *model, coll bool, s *subscriber) {
 	}
 	store := map[string]mm{}
 	for _, id := range []string{"a", "b"} {
-		if g := r.apply(wop{Kind: opGet, ID: id}); g.Found {
+		if g := r.apply(wop{Kind: opGet, ID: id}); g.Found && keep(id, g.Msg) {
 			store[id] = g.Msg
 		}
 	}
